@@ -148,6 +148,10 @@ def run(ctx):
     # the success predicate reads the per-shell statistics: they are never stale
     from ..pathrules import rule_T3
     rule_T3(ctx)
+    # ... and the split between exploration and sampling they are computed from (the success
+    # predicate counts the rows in view per shell) is recorded after the empty shells are gone
+    from ..sampler_rules import rule_L1d_transition
+    rule_L1d_transition(ctx)
     rule_T8i(ctx)
     # support: every evaluated point lies in the unit hypercube
     rule_M3(ctx)
@@ -159,6 +163,7 @@ def run(ctx):
     ctx.require(k >= 4, 'only %d checkpoint obligations about n_like found (floor 4)' % k)
     ctx.floor('F6', 6, 'who-may entries')
     ctx.floor('T5', 12, 'loop-contract obligations')
+    ctx.floor('L1d', 2, 'transition-time records')
     ctx.floor('T8', 8, 'accounting obligations')
     ctx.not_decided += ['wall-clock behaviour of the timeout',
                         'leaf numerics of Ellipsoid.sample (assumed)']
